@@ -14,6 +14,9 @@ func (e *Exec) unop(g *G, in *ssa.UnOp, x Value) (Value, bool) {
 	tt := e.tt
 	switch in.Op {
 	case token.MUL: // load
+		if bp, ok := x.(*BytePtr); ok {
+			return e.memRead(bp.Mem.Arr, bp.Mem.W, bp.Idx), true
+		}
 		p := x.(Ptr)
 		if p == nil {
 			e.runtimePanic(g, "nil pointer dereference (load)")
